@@ -79,12 +79,18 @@ def generate_all_p(all_predicate: AllPredicate) -> Iterator:
         max_length = random.randint(1, 10)
 
         values = take(max_length, generate_true(predicate))
+        if not values:
+            return  # nothing satisfies the predicate: [] is the only value
         yield random_combination_with_replacement(values, max_length)
 
         values = take(max_length, generate_true(predicate))
+        if not values:
+            return
         yield set(random_combination_with_replacement(values, max_length))
 
         values = take(max_length, generate_true(predicate))
+        if not values:
+            return
         yield list(random_combination_with_replacement(values, max_length))
 
 
@@ -271,6 +277,8 @@ def generate_is_instance_p(predicate: IsInstancePredicate) -> Iterator:
 def generate_any_p(any_predicate: AnyPredicate) -> Iterator:
     predicate = any_predicate.predicate
     values = take(10, generate_true(predicate))
+    if not values:
+        return  # nothing satisfies the predicate, so no iterable satisfies any_p
 
     # TODO: also add some values for which predicate isn't valid
 
